@@ -813,6 +813,13 @@ def retain_programs():
                 else:
                     forms.append([S("probe"), Q(S("kept")), S("acc")])
                 out.append(forms)
+    # the callee SORTS its &rest list in place: the list the caller applied it to is another value and keeps its order
+    SORT = L([S("&rest"), S("xs")], [S("stable-sort"), S("<"), S("xs")])
+    SORT1 = L([S("a"), S("&rest"), S("xs")], [S("stable-sort"), S("<"), S("xs")])
+    for call in ([S("apply"), SORT, S("samples")], [S("unpack"), SORT, S("samples")], [S("apply"), SORT, 9, S("samples")], [S("apply"), SORT1, S("samples")],
+                 [S("apply"), SORT, [S("cdr"), S("samples")]], [S("funcall"), [S("compose"), S("identity"), SORT], 3, 1, 2], [S("apply"), SORT, [S("lit")]], [S("unpack"), SORT1, [S("lit")]]):
+        out.append([[S("set"), Q(S("samples")), [S("list"), 3, 1, 2]], [S("defun"), S("lit"), [], Q([30, 10, 20])],
+                    [S("probe"), Q(S("sorted")), GUARD(call)], [S("probe"), Q(S("caller-still-has")), S("samples"), [S("lit")]]])
     return out
 
 
